@@ -126,6 +126,26 @@ txn ApplicationArgs 0; byte "cl"; ==; bz n16
   itxn_submit
   b end
 n16:
+txn ApplicationArgs 0; byte "fa"; ==; bz n17
+  txn ApplicationArgs 1; btoi; app_params_set AppFamilyBoxAccess
+  b end
+n17:
+txn ApplicationArgs 0; byte "xc"; ==; bz n18
+  txn Applications 1; txn ApplicationArgs 1; txn ApplicationArgs 2; btoi; app_box_create; pop
+  b end
+n18:
+txn ApplicationArgs 0; byte "xp"; ==; bz n19
+  txn Applications 1; txn ApplicationArgs 1; txn ApplicationArgs 2; app_box_put
+  b end
+n19:
+txn ApplicationArgs 0; byte "xr"; ==; bz n20
+  txn Applications 1; txn ApplicationArgs 1; txn ApplicationArgs 2; btoi; app_box_resize
+  b end
+n20:
+txn ApplicationArgs 0; byte "xd"; ==; bz n21
+  txn Applications 1; txn ApplicationArgs 1; app_box_del; pop
+  b end
+n21:
 txn ApplicationArgs 0; byte "no"; ==; bz bad
   b end
 bad:
@@ -181,6 +201,7 @@ type c23App struct {
 	Sponsor basics.Address // account charged for the global schema (creator unless a size-changing update moved it)
 	G, L    basics.StateSchema
 	Alive   bool
+	Family  bool                                  // FamilyBoxAccess currently set (same-creator apps may use app_box_* on this app's boxes)
 	Closed  bool                                  // the app ACCOUNT was closed out (no funds) and not re-funded yet
 	Boxes   map[string]int                        // name -> value length
 	LastDel map[string]int                        // name -> value length at the most recent deletion
@@ -274,7 +295,8 @@ func c23R(t *rapid.T, label string, lo, hi int) int {
 type c23Op struct {
 	K      string // box/global/local op code, or: optin closeout clear delete update fund
 	App    int    // index of the called app
-	Via    int    // >= 0: the op is forwarded by app Via as an inner call to App
+	Via    int    // >= 0: the op is forwarded by app Via as an inner call to App (or, with Cross, done by app Via with app_box_*)
+	Cross  bool   // app Via performs the box op on App's box with the AVM v13 app_box_* opcodes
 	Caller int
 	Name   string
 	Size   int
@@ -289,6 +311,12 @@ func (o c23Op) String() string {
 	via := ""
 	if o.Via >= 0 {
 		via = fmt.Sprintf(" via app%d", o.Via)
+		if o.Cross {
+			via = fmt.Sprintf(" by app%d(app_box_*)", o.Via)
+		}
+	}
+	if o.K == "fa" {
+		return fmt.Sprintf("fa(app%d c%d family=%d)", o.App, o.Caller, o.Val)
 	}
 	switch o.K {
 	case "bc", "br", "cd", "dc":
@@ -389,7 +417,10 @@ func (w *c23World) drawOp(t *rapid.T, progress int) c23Op {
 	}
 	ws := []wk{{"bc", 14}, {"bp", 8}, {"br", 12}, {"bx", 4}, {"bs", 4}, {"bd", 9}, {"cd", 3}, {"dc", 5},
 		{"gp", 9}, {"gu", 9}, {"gd", 4}, {"lp", 5}, {"lu", 5}, {"ld", 3},
-		{"optin", 7}, {"closeout", 3}, {"clear", 4}, {"update", 3}, {"cl", 2}, {"fund", 1}}
+		{"optin", 7}, {"closeout", 3}, {"clear", 4}, {"update", 3}, {"cl", 2}, {"fund", 1}, {"fa", 3}}
+	if !a.Family {
+		ws[20].w = 9
+	}
 	if len(opted) == 0 {
 		ws[14].w = 16
 		ws[11].w, ws[12].w, ws[13].w = 1, 1, 1
@@ -494,6 +525,11 @@ func (w *c23World) drawOp(t *rapid.T, progress int) c23Op {
 		pickFrom("optedCaller", opted)
 		op.Clear = []string{"ok", "err", "gp", "gu", "gpe", "lp", "bx", ""}[c23R(t, "clearKind", 0, 7)]
 		op.Name = c23Keys[c23R(t, "key", 0, 2)]
+	case "fa":
+		op.Val = 1
+		if c23R(t, "familyOff", 0, 9) < 2 || (a.Family && c23R(t, "familyOff2", 0, 9) < 4) {
+			op.Val = 0
+		}
 	case "update":
 		op.G = basics.StateSchema{NumUint: uint64(c23R(t, "gUint", 0, 3)), NumByteSlice: uint64(c23R(t, "gBytes", 0, 3))}
 		if op.G == (basics.StateSchema{}) && c23R(t, "plainUpdate", 0, 3) != 0 {
@@ -507,15 +543,36 @@ func (w *c23World) drawOp(t *rapid.T, progress int) c23Op {
 			}
 		}
 	}
-	// forward box / global ops through another app as an inner call
+	// forward box / global ops through another app as an inner call, or let a sibling app do the box op itself
+	// with the AVM v13 app_box_* opcodes (allowed for same-creator apps once the owner set FamilyBoxAccess)
 	switch op.K {
 	case "bc", "bp", "br", "bx", "bs", "bd", "cd", "dc", "gp", "gu", "gd":
-		if len(m.apps) > 1 && c23R(t, "inner", 0, 99) < 14 {
-			v := c23R(t, "via", 0, len(m.apps)-2)
-			if v >= op.App {
-				v++
+		if len(m.apps) > 1 {
+			r := c23R(t, "inner", 0, 99)
+			crossPct := 8
+			if a.Family {
+				crossPct = 30
 			}
-			op.Via = v
+			cross := false
+			switch op.K {
+			case "bc", "bp", "br", "bd":
+				cross = r >= 14 && r < 14+crossPct
+			}
+			if r < 14 || cross {
+				v := c23R(t, "via", 0, len(m.apps)-2)
+				if v >= op.App {
+					v++
+				}
+				if cross && m.apps[v].Creator != a.Creator && c23R(t, "crossFamily", 0, 9) < 8 {
+					for j, b := range m.apps { // mostly a sibling (same creator), sometimes a foreign app (must be refused)
+						if j != op.App && b.Creator == a.Creator && b.Alive {
+							v = j
+						}
+					}
+				}
+				op.Via = v
+				op.Cross = cross
+			}
 		}
 	}
 	return op
@@ -602,11 +659,18 @@ func (w *c23World) build(op c23Op, progs [2][]byte) (tx *txntest.Txn, boxApp bas
 			need = sz
 		}
 	}
+	if op.K == "fa" {
+		args = [][]byte{[]byte("fa"), c23U64(op.Val)}
+	}
 	if op.Via >= 0 {
 		v := w.m.apps[op.Via]
 		tx.ApplicationID = v.ID
 		tx.ForeignApps = []basics.AppIndex{a.ID}
-		args = append([][]byte{[]byte("in")}, args...)
+		if op.Cross {
+			args[0] = []byte("x" + op.K[1:]) // bc -> xc (app_box_create), bp -> xp, br -> xr, bd -> xd
+		} else {
+			args = append([][]byte{[]byte("in")}, args...)
+		}
 		if isBox {
 			tx.Boxes = []transactions.BoxRef{{Index: 1, Name: name}}
 		}
@@ -643,6 +707,8 @@ func (w *c23World) applyAccepted(mc *c23Model, ops []c23Op, nts map[string]bool)
 			delete(a.Opted, caller)
 		case "delete":
 			a.Alive = false
+		case "fa":
+			a.Family = op.Val == 1
 		case "cl":
 			a.Closed = true
 		case "fund":
@@ -881,13 +947,21 @@ func TestVerif_C23_History(t *testing.T) {
 		eval := nextBlock(tt, l)
 		for i := 0; i < nApps; i++ {
 			creator := gaddrs[c23R(t, "creator", 0, 4)]
+			if i > 0 && c23R(t, "sameCreator", 0, 9) < 7 {
+				creator = w.m.apps[0].Creator // an app family: same-creator apps may share boxes (AVM v13)
+			}
 			g := basics.StateSchema{NumUint: uint64(c23R(t, "gUint", 0, 2)), NumByteSlice: uint64(c23R(t, "gBytes", 0, 2))}
 			ls := basics.StateSchema{NumUint: uint64(c23R(t, "lUint", 0, 2)), NumByteSlice: uint64(c23R(t, "lBytes", 0, 2))}
 			id := basics.AppIndex(eval.TestingTxnCounter() + 1)
 			txn(tt, l, eval, &txntest.Txn{Type: "appl", Sender: creator, ApprovalProgram: progs[0], ClearStateProgram: progs[1],
 				GlobalStateSchema: g, LocalStateSchema: ls, Note: fmt.Sprintf("c23-create-%d", i)})
 			txn(tt, l, eval, &txntest.Txn{Type: "pay", Sender: gaddrs[9], Receiver: id.Address(), Amount: 60_000_000, Note: fmt.Sprintf("c23-fund-%d", i)})
-			w.m.apps = append(w.m.apps, &c23App{ID: id, Creator: creator, G: g, L: ls, Alive: true,
+			family := c23R(t, "familyAtSetup", 0, 9) < 5
+			if family {
+				txn(tt, l, eval, &txntest.Txn{Type: "appl", Sender: creator, ApplicationID: id, ApplicationArgs: [][]byte{[]byte("fa"), c23U64(1)},
+					Note: fmt.Sprintf("c23-family-%d", i)})
+			}
+			w.m.apps = append(w.m.apps, &c23App{ID: id, Creator: creator, G: g, L: ls, Alive: true, Family: family,
 				Boxes: map[string]int{}, LastDel: map[string]int{}, Opted: map[basics.Address]basics.StateSchema{}})
 		}
 		endBlock(tt, l, eval)
@@ -995,7 +1069,9 @@ func TestVerif_C23_History(t *testing.T) {
 					fp.WriteByte(';')
 					rendered = append(rendered, s)
 					k := op.K
-					if op.Via >= 0 {
+					if op.Via >= 0 && op.Cross {
+						k += "@cross"
+					} else if op.Via >= 0 {
 						k += "@inner"
 					}
 					if len(ops) == 1 {
